@@ -323,12 +323,26 @@ func (e *Engine) onNack(name enc.Name, reason uint64) {
 	verifBeforeLock(&e.pitLock, "pit.lock")
 	e.pitLock.Lock()
 	defer e.pitLock.Unlock()
+	// An implicit digest is part of the Interest's name but not of the PIT node's:
+	// Express files such an Interest under the name without it
+	var impSha256 []byte
+	if len(name) > 0 && name[len(name)-1].Typ == enc.TypeImplicitSha256DigestComponent {
+		impSha256 = name[len(name)-1].Val
+		name = name[:len(name)-1]
+	}
 	n := e.pit.ExactMatch(name)
 	if n == nil {
 		e.log.WithField("name", name.String()).Warn("Received Nack for an unknown interest. Drop.")
 		return
 	}
+	// The Nack resolves the Interests of exactly its name (with the same implicit
+	// digest, or none); the others at this node, and those on longer and shorter names, stay
+	rest := make([]*pendInt, 0)
 	for _, entry := range n.Value() {
+		if !bytes.Equal(entry.impSha256, impSha256) {
+			rest = append(rest, entry)
+			continue
+		}
 		entry.timeoutCancel()
 		if entry.callback != nil {
 			entry.callback(ndn.ExpressCallbackArgs{
@@ -339,8 +353,7 @@ func (e *Engine) onNack(name enc.Name, reason uint64) {
 			e.log.Fatalf("PIT has empty entry. This should not happen. Please check the implementation.")
 		}
 	}
-	// All entries of this name are resolved; entries on longer and shorter names stay
-	n.SetValue(nil)
+	n.SetValue(rest)
 	n.DeleteIf(func(lst []*pendInt) bool {
 		return len(lst) == 0
 	})
